@@ -136,6 +136,16 @@ def sliceLine (line : String) (b e : Nat) : String :=
 def isIdentStr (s : String) : Bool := isIdent s
 def isModuleStr (s : String) : Bool := isSelector (s.splitOn ".")
 
+/-- the final check of `_parse_selector` (395-413): the consumed tokens must be contiguous in the
+    physical line (`raw` is `line[begin:end]`), every scope an identifier (or dotted name when
+    periods are allowed), the last part a dotted name, and scopes present only when allowed -/
+def checkSelector (sel raw : String) (allowScopes periodsInScope : Bool) : Bool :=
+  let scopeParts := sel.splitOn "/"
+  let scopesOk := (scopeParts.dropLast).all (fun s => if periodsInScope then isModuleStr s else isIdentStr s)
+  let lastOk := isModuleStr (scopeParts.getLastD "")
+  let shapeOk := allowScopes || scopeParts.length == 1
+  raw == sel && scopesOk && lastOk && shapeOk
+
 /-- `_parse_selector`: an alternating run of NAME and `/` `.` tokens that must be contiguous in the
     physical line and well formed -/
 def parseSelector (blk : Bool) (allowScopes : Bool) (periodsInScope : Bool) (ts : List Token) :
@@ -159,11 +169,7 @@ def parseSelector (blk : Bool) (allowScopes : Bool) (periodsInScope : Bool) (ts 
     | .ok ts2 =>
       let sel := String.join parts
       let raw := sliceLine first.line first.scol endCol
-      let scopeParts := sel.splitOn "/"
-      let scopesOk := (scopeParts.dropLast).all (fun s => if periodsInScope then isModuleStr s else isIdentStr s)
-      let lastOk := isModuleStr (scopeParts.getLastD "")
-      let shapeOk := allowScopes || scopeParts.length == 1
-      if raw != sel || !(scopesOk && lastOk && shapeOk) then .error (.syntax "Malformatted scope or selector.")
+      if !checkSelector sel raw allowScopes periodsInScope then .error (.syntax "Malformatted scope or selector.")
       else .ok (sel, ts2)
 
 mutual
